@@ -216,6 +216,15 @@ func main() {
 		hooks += "// the selector cache has an unknown shape in this tree: reset unavailable\n" +
 			"func VerifResetSelectorCache() {}\n\nfunc VerifSelectorCacheLen() int { return -1 }\n"
 	}
+	// address of the selector-cache mutex (for vrt.SetQuiet in result-oriented schedule checks)
+	hasMutexMut := hasMut
+	if hasMutexMut {
+		hooks = strings.Replace(hooks, "package genql\n\n", "package genql\n\nimport \"unsafe\"\n\n", 1)
+		hooks += "\nfunc VerifSelectorMutex() unsafe.Pointer { return unsafe.Pointer(&mut) }\n"
+	} else {
+		hooks = strings.Replace(hooks, "package genql\n\n", "package genql\n\nimport \"unsafe\"\n\n", 1)
+		hooks += "\nfunc VerifSelectorMutex() unsafe.Pointer { return nil }\n"
+	}
 	hooksPath := filepath.Join(ovDir, "verif_hooks.go")
 	os.WriteFile(hooksPath, []byte(hooks), 0o644)
 	replace[filepath.Join(*modroot, "verif_hooks.go")] = hooksPath
